@@ -71,6 +71,34 @@ impl Carriers {
     }
 }
 
+thread_local! {
+    /// Which radial the type-31 header describes besides its date and time: 0 = first radial of a
+    /// volume (elevation 1, azimuth 1), 1 = mid-volume (elevation 3, azimuth 200), 2 = last radial
+    /// of an elevation (14, 720, status 2), 3 = extreme numbers (255, 65535, status 4, other spacing).
+    /// The instant is a function of the date and time fields alone.
+    static T31_TEMPLATE: std::cell::Cell<u8> = const { std::cell::Cell::new(0) };
+}
+
+fn t31_template(d: u16, t: u32) -> T31Header {
+    match T31_TEMPLATE.with(|x| x.get()) {
+        1 => T31Header::basic(3, 200, d, t),
+        2 => {
+            let mut h = T31Header::basic(14, 720, d, t);
+            h.status = 2;
+            h
+        }
+        3 => {
+            let mut h = T31Header::basic(255, 65535, d, t);
+            h.status = 4;
+            h.spacing = 2;
+            h.cut_sector = 3;
+            h.az_indexing = 100;
+            h
+        }
+        _ => T31Header::basic(1, 1, d, t),
+    }
+}
+
 /// Evaluate accessor `a` at (d, t) by decoding freshly encoded reference bytes.
 /// Returns epoch milliseconds, None if the accessor returned None.
 pub fn eval_decode(a: Acc, d: u32, t: u32) -> Caught<Option<i64>> {
@@ -81,13 +109,13 @@ pub fn eval_decode(a: Acc, d: u32, t: u32) -> Caught<Option<i64>> {
             h.date_time().map(|x| x.timestamp_millis())
         }
         Acc::T31Header => {
-            let b = t31_body(&T31Header::basic(1, 1, d as u16, t), &[], &Layout::default()).0;
+            let b = t31_body(&t31_template(d as u16, t), &[], &Layout::default()).0;
             let m = dm::digital_radar_data::decode_digital_radar_data(&mut std::io::Cursor::new(b)).expect("decodes");
             m.header.date_time().map(|x| x.timestamp_millis())
         }
         #[cfg(feature = "f-conv")]
         Acc::Radial => {
-            let b = t31_body(&T31Header::basic(1, 1, d as u16, t), &[], &Layout::default()).0;
+            let b = t31_body(&t31_template(d as u16, t), &[], &Layout::default()).0;
             let m = dm::digital_radar_data::decode_digital_radar_data(&mut std::io::Cursor::new(b)).expect("decodes");
             m.radial().ok().map(|r| r.collection_timestamp())
         }
@@ -445,14 +473,43 @@ pub fn run(ctx: &'static Ctx) -> (&'static str, Value, Vec<&'static str>) {
         )
         .map(|x| x.0)
         .reduce(Stats::new, Stats::merge);
-    let stats = s1.merge(s2).merge(s3).merge(s4).merge(s5).merge(s6).merge(s7);
+    // the other fields of the radial header: all days x five times of day under three more header
+    // templates (mid-volume radial, last radial of an elevation, extreme numbers)
+    let t31_acc: Vec<Acc> = MS_ACC.iter().copied().filter(|a| matches!(a, Acc::T31Header | Acc::Radial)).collect();
+    let mut s8 = Stats::new();
+    for template in 1..=3u8 {
+        let part: Stats = (0u32..65536)
+            .into_par_iter()
+            .fold(Stats::new, |mut st, d| {
+                T31_TEMPLATE.with(|x| x.set(template));
+                for a in t31_acc.iter().copied() {
+                    for t in [0u32, 1, 5_000, 2_355_000, 86_399_999] {
+                        let got = eval_decode(a, d, t);
+                        if in_range(a, d, t) && got != Caught::Ret(Some(expected(a, d, t))) {
+                            ctx.fail(
+                                &format!("datetime:{}:depends_on_other_header_fields", a.name()),
+                                || format!("d={d} t={t} in header template {template}: got {:?}, expected {}", got, expected(a, d, t)),
+                                || json!({"op": "template", "accessor": a.name(), "d": d, "t": t, "template": template}),
+                            );
+                        }
+                        st.evaluations += 1;
+                    }
+                }
+                T31_TEMPLATE.with(|x| x.set(0));
+                st
+            })
+            .reduce(Stats::new, Stats::merge);
+        s8 = s8.merge(part);
+    }
+    s8.count("header_templates", 3);
+    let stats = s1.merge(s2).merge(s3).merge(s4).merge(s5).merge(s6).merge(s7).merge(s8);
     let exhaustive_note = if thorough {
         "cross: all 65536 days x boundary ms/min (re-decoded); all 65536 minute values x D; all days x all 1440 minutes; D(16 days) x all 86.4M ms for the decode-crate accessors (every 5th ms for the volume header)"
     } else {
         "cross: all 65536 days x boundary ms/min (re-decoded); all 65536 minute values x D; all days x all 1440 minutes; 3 days x every 7th ms"
     };
     let cov = stats.coverage(
-        &format!("{exhaustive_note}. wall clock: all 65535 days x 3 times x 7 accessors x 13 offsets of the thread's wall clock from the instant under test (-1 d .. +1 d, incl. +-1 ms, +-1 s, +-15 s, +-31 s). history: every ordered pair of the seven accessors called back to back on a fresh thread over 3 days x 4 raw time values each (same raw number in ms and minutes, same day / different day). non-trivial = distinct day or minute value on the re-decode path; oracle = (d-1)*86400000 + t in i64, identical for both crates"),
+        &format!("{exhaustive_note}. header templates: all days x 5 times x 3 further type-31 header templates (mid-volume radial, last radial of an elevation, extreme numbers). wall clock: all 65535 days x 3 times x 7 accessors x 13 offsets of the thread's wall clock from the instant under test (-1 d .. +1 d, incl. +-1 ms, +-1 s, +-15 s, +-31 s). history: every ordered pair of the seven accessors called back to back on a fresh thread over 3 days x 4 raw time values each (same raw number in ms and minutes, same day / different day). non-trivial = distinct day or minute value on the re-decode path; oracle = (d-1)*86400000 + t in i64, identical for both crates"),
         thorough,
         json!({"t_ms": t_ms, "t_min": t_min, "D": dset, "not_covered": "the full 65535 x 86.4M (d, ms) product"}),
     );
@@ -491,6 +548,16 @@ pub fn replay(ctx: &'static Ctx, case: &Value) {
     let a = Acc::from_name(case["accessor"].as_str().unwrap_or("")).unwrap_or_else(|| machinery("C08 replay: accessor"));
     let d = case["d"].as_u64().unwrap_or(0) as u32;
     let t = case["t"].as_u64().unwrap_or(0) as u32;
+    if case["op"].as_str() == Some("template") {
+        T31_TEMPLATE.with(|x| x.set(case["template"].as_u64().unwrap_or(0) as u8));
+        let got = eval_decode(a, d, t);
+        T31_TEMPLATE.with(|x| x.set(0));
+        println!("replay {} d={d} t={t} template {}: got {:?} expected {}", a.name(), case["template"], got, expected(a, d, t));
+        if in_range(a, d, t) && got != Caught::Ret(Some(expected(a, d, t))) {
+            ctx.fail(&format!("datetime:{}:depends_on_other_header_fields", a.name()), || format!("{got:?}"), || case.clone());
+        }
+        return;
+    }
     if case["op"].as_str() == Some("clock") {
         let now_ms = case["now_ms"].as_i64().unwrap_or(0);
         let got = crate::clock::with_thread_now_ms(now_ms, || eval_decode(a, d, t));
